@@ -471,6 +471,7 @@ def run_check(prop, tier, seed, args):
         print("HARNESS-ERROR", agg.harness_errors[0]["harness_error"], file=sys.stderr)
         return 2
     rc = 0
+    agg.dump_digests(getattr(args, "digests", None))
     from .cli import classify_known, verify_replay_fresh
 
     seen = set()
